@@ -1,14 +1,18 @@
 (* C11 -- reference semantics: the derivation graph of the identities of a schema.
 
-   Vertices are the identities of all loaded modules and of the submodules reachable from them through
-   include statements, named "owner:identity".  There is an edge i -> b for every base statement of i,
-   the prefix of its argument read in the (sub)module that declares i: no prefix or that module's own
-   prefix denote the module i belongs to, any other prefix the module named by the first import
-   statement carrying it.  [derived b i]: i reaches b through one or more edges.
+   Vertices are the identity statements (declarations) of all loaded module revisions and of the submodules
+   reachable from them through include statements, named "<full name of the declaring (sub)module>:<name>".
+   Every declaration is filed in the identity dictionary under "<full name of the owning module
+   revision>:<name>" -- a submodule included by two revisions of its module is filed under both.  There is an
+   edge x -> b for every base statement of x, its argument read in the (sub)module that declares x: no
+   prefix or that module's own prefix search the revisions the declaring (sub)module is filed under, any
+   other prefix the module revision that the first import statement carrying it is bound to (the revision
+   named by its revision-date when that is loaded, the latest otherwise).  [derived b x]: x reaches b
+   through one or more edges.
 
-   The graph is stated over a lookup function [g] from keys to declarations (the identity dictionary
-   read as a function); [declared] says which lookup function a schema determines, and [consistent] that
-   it determines one (no two identity statements compete for a key). *)
+   The graph is stated over the dictionary read as a function [g], the owners table read as a function
+   [ow] and the declarations by name [dl]; [filed], [owner_of] say which dictionary and owners a schema
+   determines. *)
 From Coq Require Import Ascii String List Bool Relations Sorting.Sorted Permutation.
 From GY Require Import Model.Identity.
 Import ListNotations.
@@ -25,34 +29,43 @@ Variable sc : schema.
 
 (* ------------------------------------------------------------------ which identities there are *)
 
-(* an entry of ms.Modules *)
-Definition loaded (md : module) : Prop := m_sub md = false /\ find_mod sc false (m_name md) = Some md.
+(* a value of ms.Modules (sub = false) / ms.SubModules (sub = true) *)
+Definition loaded (sub : bool) (md : module) : Prop := exists k, reg_get sc sub k = Some md.
 
-(* md itself, or a submodule reached from it through include statements that name a loaded submodule *)
+(* md itself, or a submodule reached from it through include statements bound to a loaded submodule *)
 Inductive part_of (md : module) : module -> Prop :=
 | part_self : part_of md md
-| part_incl m n s : part_of md m -> In n (m_includes m) -> find_mod sc true n = Some s -> part_of md s.
+| part_incl m n d s : part_of md m -> In (n, d) (m_includes m) -> find_module sc true n d = Some s ->
+                      part_of md s.
 
 (* (sub)module m is read by identity resolution *)
-Definition visible (m : module) : Prop := exists md, loaded md /\ part_of md m.
+Definition visible (m : module) : Prop := exists md, loaded false md /\ part_of md m.
 
-(* identity statement i of m is filed under key k *)
-Definition declared (k : key) (e : entry) : Prop :=
-  visible (fst e) /\ In (snd e) (m_idents (fst e)) /\
-  k = mk_key (owner_name sc (fst e)) (i_name (snd e)).
+(* identity statement i of m is filed under key k: for every module revision md whose whole module m is part
+   of, under md -- or, when m is a submodule of a module of another name, under the latest revision of that *)
+Definition filed (k : key) (e : entry) : Prop :=
+  exists md, loaded false md /\ part_of md (fst e) /\ In (snd e) (m_idents (fst e)) /\
+             k = identity_key (owner_for sc md (fst e)) (i_name (snd e)).
 
-Definition consistent : Prop := forall k e1 e2, declared k e1 -> declared k e2 -> e1 = e2.
+Definition consistent : Prop := forall k e1 e2, filed k e1 -> filed k e2 -> e1 = e2.
 
-(* every include / import statement the resolver follows names something loaded *)
+(* the module revisions the identities of m are filed under *)
+Definition owner_of (m w : module) : Prop :=
+  exists md, loaded false md /\ part_of md m /\ w = owner_for sc md m.
+
+(* every include / import statement the resolver follows is bound to something loaded *)
 Definition links_ok : Prop :=
   forall m, visible m ->
-    (forall n, In n (m_includes m) -> find_mod sc true n <> None) /\
-    (forall p n, In (p, n) (m_imports m) -> find_mod sc false n <> None).
+    (forall n d, In (n, d) (m_includes m) -> find_module sc true n d <> None) /\
+    (forall p n d, In (p, n, d) (m_imports m) -> find_module sc false n d <> None).
 
 (* ------------------------------------------------------------------ the graph *)
-Variable g : lookup.
+Variable g : lookup.                       (* the dictionary: key -> declaration *)
+Variable ow : module -> list module.       (* the owners table, in the order identities.find searches it *)
+Variable dl : lookup.                      (* declaration id -> declaration *)
 
-Definition defined (k : key) : Prop := g k <> None.
+(* x names a declaration that is filed in the dictionary *)
+Definition declares (x : key) (e : entry) : Prop := did_of e = x /\ exists k, g k = Some e.
 
 Fixpoint no_colon (s : string) : Prop :=
   match s with
@@ -65,41 +78,58 @@ Inductive splits : string -> string -> string -> Prop :=
 | split_plain s : no_colon s -> splits s "" s
 | split_at p n : no_colon p -> splits (p ++ ":" ++ n)%string p n.
 
-Inductive first_import : list (string * string) -> string -> string -> Prop :=
-| fi_here p n r : first_import ((p, n) :: r) p n
-| fi_later p' n' r p n : p' <> p -> first_import r p n -> first_import ((p', n') :: r) p n.
+(* the first import statement with prefix p names module n with revision-date d *)
+Inductive first_import : list (string * string * string) -> string -> string -> string -> Prop :=
+| fi_here p n d r : first_import ((p, n, d) :: r) p n d
+| fi_later p' n' d' r p n d : p' <> p -> first_import r p n d -> first_import ((p', n', d') :: r) p n d.
 
-(* the name of the module prefix pfx denotes inside (sub)module md *)
-Inductive target_module (md : module) (pfx : string) : string -> Prop :=
-| tm_local : pfx = "" \/ pfx = m_prefix md -> target_module md pfx (owner_name sc md)
-| tm_import n ext : pfx <> "" -> pfx <> m_prefix md ->
-    first_import (m_imports md) pfx n -> find_mod sc false n = Some ext ->
-    target_module md pfx (m_name ext).
+(* the module revisions searched for a name with prefix pfx written inside (sub)module md *)
+Inductive search_list (md : module) (pfx : string) : list module -> Prop :=
+| sl_local : pfx = "" \/ pfx = m_prefix md -> search_list md pfx (ow md)
+| sl_import n d ext : pfx <> "" -> pfx <> m_prefix md ->
+    first_import (m_imports md) pfx n d -> find_module sc false n d = Some ext ->
+    search_list md pfx (ow ext).
 
-(* base argument s, written inside md, names identity b *)
-Definition resolves (md : module) (s : string) (b : key) : Prop :=
-  exists pfx nm mn, splits s pfx nm /\ target_module md pfx mn /\ b = mk_key mn nm /\ defined b.
+(* the first of them that files the name *)
+Inductive found (nm : string) : list module -> entry -> Prop :=
+| found_here o r e : g (identity_key o nm) = Some e -> found nm (o :: r) e
+| found_later o r e : g (identity_key o nm) = None -> found nm r e -> found nm (o :: r) e.
 
-Definition edge (i b : key) : Prop :=
-  exists md id s, g i = Some (md, id) /\ In s (i_bases id) /\ resolves md s b.
+(* base argument s, written inside md, names declaration e *)
+Definition resolves (md : module) (s : string) (e : entry) : Prop :=
+  exists pfx nm l, splits s pfx nm /\ search_list md pfx l /\ found nm l e.
 
-(* i is derived from b *)
-Definition derived (b i : key) : Prop := clos_trans key (fun x y => edge y x) b i.
+Definition edge (x b : key) : Prop :=
+  exists ex s eb, declares x ex /\ In s (i_bases (snd ex)) /\ resolves (fst ex) s eb /\ b = did_of eb.
+
+(* x is derived from b *)
+Definition derived (b x : key) : Prop := clos_trans key (fun u v => edge v u) b x.
 
 Definition all_resolve : Prop :=
-  forall i md id s, g i = Some (md, id) -> In s (i_bases id) -> exists b, resolves md s b.
+  forall k e s, g k = Some e -> In s (i_bases (snd e)) -> exists eb, resolves (fst e) s eb.
 
-Definition acyclic : Prop := forall i, ~ derived i i.
+Definition acyclic : Prop := forall x, ~ derived x x.
 
 (* ------------------------------------------------------------------ the order of a Values list *)
 
-Definition name_of (k : key) : string := match g k with Some (_, id) => i_name id | None => "" end.
-
 Definition str_lt (a b : string) : Prop := String.compare a b = Lt.     (* bytewise lexicographic *)
 
-(* by identity name, then by module-qualified name *)
-Definition key_lt (a b : key) : Prop :=
-  str_lt (name_of a) (name_of b) \/ (name_of a = name_of b /\ str_lt a b).
+(* identity name, module-qualified name, full name of the declaring (sub)module *)
+Definition sort_key_of (x : key) : list string :=
+  match dl x with
+  | Some (m, i) => [i_name i; mk_key (owner_name sc m) (i_name i); full_name m]
+  | None => []
+  end.
+
+Fixpoint lex_lt (a b : list string) : Prop :=
+  match a, b with
+  | [], [] => False
+  | [], _ :: _ => True
+  | _ :: _, [] => False
+  | x :: a', y :: b' => str_lt x y \/ (x = y /\ lex_lt a' b')
+  end.
+
+Definition key_lt (a b : key) : Prop := lex_lt (sort_key_of a) (sort_key_of b).
 
 (* strictly increasing: sorted and without repetition *)
 Definition sorted_keys (l : list key) : Prop := StronglySorted key_lt l.
